@@ -122,24 +122,65 @@ theorem singular_box_paints_nothing (pov : Bool) (a : Attrs) (t : StyleTransform
     paint pov (mkCtx (.node a kids) children blocks floats bc) env = [] :=
   paint_singular pov a kids children blocks floats bc env (hm.trans hs)
 
+/-! ## `visibility` acts box by box -/
+
+/-- **`visibility` is not subtree-atomic**: `draw_inline_level` on an inline (or line) box paints the box's
+own decoration — nothing, when it is hidden: `boxBackground` gave it no background and `drawBorder` tests
+`visible` — and then always runs the children loop.  A `visibility: visible` descendant of a hidden inline
+box is painted (CSS 2.1 11.2: "descendants of the element will be visible if they have 'visibility: visible'"). -/
+theorem inline_children_painted_whatever_visibility (a : Attrs) (kidsItems : Env → List Item) (env : Env)
+    (h : a.kind.dilInlineOrLine = true) :
+    inlBoxWith a kidsItems env = decoration a env ++ kidsItems env := by
+  simp [inlBoxWith, h]
+
+/-- A hidden box whose background layout removed paints no decoration of its own. -/
+theorem hidden_box_paints_no_decoration (a : Attrs) (env : Env) (hv : a.visible = false) (hb : a.bg = none) :
+    decoration a env = [] := by
+  simp [decoration, drawBackground, drawBorder, hv, hb]
+
+/-- `<span style="visibility:hidden; background:…; border:…">h<span style="visibility:visible">v</span></span>`:
+only the text of the visible grandchild is shown. -/
+example :
+    inlList true
+      [.node { plain 1 .InlineBox with visible := false, bg := none, border := some 6, borderSides := 4 }
+        [.leaf { plain 2 .TextBox with visible := false, bg := none },
+         .node { plain 3 .InlineBox with bg := none } [.leaf { plain 4 .TextBox with bg := none }]]] {} =
+      [.paint .text 4 17 {}] := by
+  simp [inlList, inlKids, inlBoxWith, decoration, drawBackground, drawBorder, drawText, plain,
+    Kind.dilInlineOrLine, Kind.dilTextChild]
+
 /-! ## Which boxes have a background -/
 
-/-- `layout_box_backgrounds`: a box other than the page box has no `Background` iff it is hidden or its
-colour is transparent and it has no image; otherwise the background carries the colour. -/
+/-- `layout_box_backgrounds` as it is: a box other than the page box has no `Background` iff its
+`visibility` is `hidden` or its colour is transparent and it has no image; otherwise the background carries
+the colour. -/
 theorem box_background_spec (s : StyleBg) :
     boxBackground false s =
-      if s.visible = false ∨ (s.colour = none ∧ s.images = 0) then none else some s.colour := by
-  unfold boxBackground
-  cases hv : s.visible <;> cases hc : s.colour <;> by_cases hi : s.images = 0 <;> simp [hv, hc, hi]
+      if s.visibility = .hidden ∨ (s.colour = none ∧ s.images = 0) then none else some s.colour := by
+  unfold boxBackground StyleBg.hidden
+  cases hv : s.visibility <;> cases hc : s.colour <;> by_cases hi : s.images = 0 <;> simp [hv, hc, hi]
+
+/-- **Partial: CSS 2.1 11.2 ("an invisible box paints nothing") for `visibility` ≠ `collapse`.**  A box
+other than the page box has a `Background` iff it is *visible* and has a colour or an image.  The clause is
+false for `collapse` (`Witness.C17.collapse_keeps_background`, finding `collapse-paints-background`): the
+test of `layout_box_backgrounds` is `== 'hidden'` where every other reader tests `!= 'visible'`. -/
+theorem box_background_css_partial (s : StyleBg) (h : s.visibility ≠ .collapse) :
+    (boxBackground false s).isSome = true ↔
+      s.visibility = .visible ∧ (s.colour ≠ none ∨ s.images ≠ 0) := by
+  rw [box_background_spec]
+  cases hv : s.visibility <;> cases hc : s.colour <;> by_cases hi : s.images = 0 <;> simp_all
 
 /-- The page box always has one ("Pages need a background for bleed box"). -/
 theorem page_background_some (s : StyleBg) : (boxBackground true s).isSome = true := by
-  cases hv : s.visible <;> cases hc : s.colour <;> by_cases hi : s.images = 0 <;>
-    simp [boxBackground, hv, hc, hi]
+  unfold boxBackground StyleBg.hidden
+  cases hv : s.visibility <;> cases hc : s.colour <;> by_cases hi : s.images = 0 <;> simp [hv, hc, hi]
 
-example : boxBackground false ⟨true, some 8, 0⟩ = some (some 8) ∧ boxBackground false ⟨false, some 8, 2⟩ = none ∧
-    boxBackground false ⟨true, none, 1⟩ = some none ∧ boxBackground true ⟨true, none, 0⟩ = some none := by
+example : boxBackground false ⟨.visible, some 8, 0⟩ = some (some 8) ∧
+    boxBackground false ⟨.hidden, some 8, 2⟩ = none ∧
+    boxBackground false ⟨.visible, none, 1⟩ = some none ∧ boxBackground true ⟨.visible, none, 0⟩ = some none := by
   decide
+
+example : (⟨.visible, some 8, 0⟩ : StyleBg).visibility ≠ .collapse := by decide
 
 /-! ## The canvas background: every background is used exactly once -/
 
